@@ -54,11 +54,19 @@ class Product:
         underlying = self.payoff_underlying.value(
             times=times, path=path, jump_path=jump_path
         )
+        self.process_path(times, path)
+        return underlying
+
+    def process_path(self, times: TimeGrid, path: np.array) -> None:
+        """Let the payoff retrieve what it needs from the path (barrier event...)
+
+        :param times: times of the underlying path
+        :param path: underlying path values, in the process representation the product has been updated for
+        """
         # the payoff reads the path of the underlying itself (a barrier level is quoted on the spot, not on its logarithm)
         if self._process_representation == ProcessRepresentation.LOG:
             path = np.exp(path)
         self.payoff.process(times, path)
-        return underlying
 
     def update(self, process_representation: ProcessRepresentation) -> None:
         """Update of the payoff underlying object given the process representation (identity or log-representation)
@@ -135,9 +143,11 @@ class ControlVariates:
             fun(times, path, jump_path, payoff_underlying)
             for fun in self._underlying_functions
         ]
-        payoffs = [
-            product(value) for product, value in zip(self.products, payoff_underlyings)
-        ]
+        payoffs = []
+        for product, value in zip(self.products, payoff_underlyings):
+            # a path-dependent payoff (barrier...) reads this path before it is evaluated
+            product.process_path(times, path)
+            payoffs.append(product(value))
         # the following idea is that we want a 2d-array even for a 1d-array
         # ndmin=2 will create a 2d array but the transposed version of what we want
         # in the case of a 2d-array input, the line below just transposes twice the array.
@@ -180,18 +190,16 @@ class ControlVariates:
                 for fun in self._underlying_functions
             ]
         )
-        payoffs_fine = np.array(
-            [
-                product(value)
-                for product, value in zip(self.products, payoff_underlyings_from_fine)
-            ]
-        )
-        payoffs_coarse = np.array(
-            [
-                product(value)
-                for product, value in zip(self.products, payoff_underlyings_from_coarse)
-            ]
-        )
+        # a path-dependent payoff (barrier...) reads the path of a component before it is evaluated on that component
+        payoffs_fine, payoffs_coarse = [], []
+        for product, value_fine, value_coarse in zip(
+            self.products, payoff_underlyings_from_fine, payoff_underlyings_from_coarse
+        ):
+            product.process_path(times, path_fine)
+            payoffs_fine.append(product(value_fine))
+            product.process_path(times, path_coarse)
+            payoffs_coarse.append(product(value_coarse))
+        payoffs_fine, payoffs_coarse = np.array(payoffs_fine), np.array(payoffs_coarse)
 
         return np.array(
             [
